@@ -3,7 +3,7 @@ from .common import *
 
 RULE = ("keys: all 6 hashes x parameter lists of 1..8 levels (H2 hook height and H5, W1..W8, uniform and mixed); counters: 0, 1, "
         "every radix boundary +-1, last, random; messages of lengths {0,1,..,4096}; every released signature is verified "
-        "through hss_verify, Signature+VerifyingKey and VerifierSignature+VerifyingKey; plus message lengths 0, 255..257, 65535..65537, 100000")
+        "through hss_verify, Signature+VerifyingKey and VerifierSignature+VerifyingKey; plus message lengths 0, 255..257, 65535..65537, 100000; buffers left behind by other keys (filled by their keygen, initialised by their signing call: shrunk slice and whole buffer)")
 ASSUMPTIONS = ["the Impl model is hand-written; agreement with the library is shown only on the cases run",
                "hash functions are arbitrary functions of fixed output length in every theorem"]
 
@@ -51,6 +51,7 @@ def run(ctx):
     # signing / key generation with auxiliary buffers the caller did not clear (first byte 0, arbitrary bytes behind it), all
     # hashes, top trees of height 5, leaves at the very end of the top tree included: released signatures must verify
     aux_sign = []
+    foreign = {}
     for H in ALL_H:
         n = HASHES[H]
         for ps in ([(2, 5)], [(3, 5), (2, 1)]):
@@ -69,6 +70,20 @@ def run(ctx):
                     for ax in (filled, b"\0" + rng.bytes_(L - 1)):
                         msg = gen_msg(rng, "quick")
                         aux_sign.append(Case(sign_line(H, k.blob(cnt), msg, "accept", ax), "sign/with-aux", {"key": k, "c": cnt, "msg": msg, "n": n}))
+                # buffers other keys left behind: filled by another key's keygen, or initialised by another key's *signing* call on a
+                # fresh buffer (marked, nodes stored, MAC field never written) - whole buffer and shrunk slice
+                for (oseed, obuf, tag) in foreign.get(H, []):
+                    if oseed != seed:
+                        msg = gen_msg(rng, "quick")
+                        cnt = rng.choice([0, 1, k.lifetime - 1])
+                        aux_sign.append(Case(sign_line(H, k.blob(cnt), msg, "accept", obuf), "sign/with-aux-left-by-another-key/" + tag,
+                                             {"key": k, "c": cnt, "msg": msg, "n": n}))
+                if L == 2500:
+                    prep = ctx.both([Case(sign_line(H, k.blob(2), b"prepare", "accept", bytes(L)), "sign/prepare-buffer", {"key": k, "c": 2, "msg": b"prepare", "n": n})], proj)[0][1]
+                    pf = fields(prep)
+                    if prep.startswith("ok") and pf.get("aux", "none") != "none":
+                        used, rest = unhx(pf["aux"]), unhx(pf.get("rest", ""))
+                        foreign.setdefault(H, []).extend([(seed, filled, "keygen"), (seed, used, "sign-shrunk"), (seed, used + rest, "sign-whole")])
     sign_cases = list(aux_sign)
     for k in keys:
         cs = boundary_counters(k.heights, rng, 2)
